@@ -220,3 +220,31 @@ reg('C13', module='c13', level='exploration',
                           'logic_triples': 300000, 'closer_checked': 40000,
                           'factory_selections': 300,
                           'theory_combines': 500}})
+
+reg('C10', module='c10', level='exploration',
+    technique=('runtime monitoring: outputs of nnf / prenex / aig / '
+               'TimesDistributor / partitions / propagate_toplevel / Boolean '
+               'qelim compared with their inputs by the reference evaluator '
+               '(Bool and BV quantifiers exact) + independent shape '
+               'predicates'),
+    rule=('random Boolean structure over theory atoms with nested/shadowing '
+          'quantifiers in Boolean positions, negated ITE/IFF shapes, sums of '
+          'products, conjunctions of var/const equalities of every sort, '
+          'Boolean-quantified formulas with 1-4 bound variables; distinct = '
+          '(procedure, formula key)'),
+    level_text=('input and output of every call are evaluated on all '
+                'interpretations (finite symbol domains) or 20 corner-first '
+                'samples, Int/Real binders under four quantification '
+                'domains; the advertised shape is checked by predicates '
+                'written independently of pySMT.'),
+    level_note='trusts vf/refeval.py and the shape predicates in vf/c10.py',
+    assumptions=['prenex is judged only on inputs whose quantifiers occur in '
+                 'Boolean positions'],
+    require={'quick': {'equivalences_compared': 8000, 'shapes_checked': 5000,
+                       'proc_nnf': 1500, 'proc_prenex': 1000,
+                       'proc_aig': 1500, 'proc_times_distributor': 500,
+                       'proc_propagate_toplevel': 500,
+                       'proc_qelim_shannon': 800, 'proc_qelim_selfsub': 800,
+                       'proc_factory_qelim_selfsub': 300},
+             'thorough': {'equivalences_compared': 100000,
+                          'shapes_checked': 50000}})
